@@ -338,25 +338,26 @@ def splitVals (st : StructTable) (env : Env) (c : Call) : List J :=
    | _ => [])
 
 /-- the indices a mapped call iterates over: those of the first split
-collection; none when any split source is not a collection (null) -/
+collection.  A null split source is a collection without elements
+(`ModeNullMapCall`: "evaluates to null, which could be either an array or a map
+but either way has no elements"). -/
 def callIndices (st : StructTable) (env : Env) (c : Call) : List Idx :=
-  let vs := splitVals st env c
-  if vs.all isColl then
-    match vs with
-    | v :: _ => indicesOf v
-    | [] => []
-  else []
+  match splitVals st env c with
+  | v :: _ => indicesOf v
+  | [] => []
 
 /-- all split collections of a mapped call agree in their index sets (what
-`MergeMapCallSources` demands; for run-time-sized collections it can only be
-checked at run time).  Programs violating it are outside the domain of `den`. -/
+`MergeMapCallSources` demands: "either all maps with the same set of keys, or
+arrays of the same length"; for run-time-sized collections it can only be
+checked at run time).  A null source counts as empty, so null next to a
+non-empty collection disagrees.  Programs violating it are outside the domain
+of `den`: the real run-time then either runs nothing (a statically null source
+empties the call) or runs the known-length forks with null elements (a source
+that is null only in some outer fork), depending on how the null arises. -/
 def splitsAgree (st : StructTable) (env : Env) (c : Call) : Bool :=
-  let vs := splitVals st env c
-  if vs.all isColl then
-    match vs with
-    | v :: rest => rest.all fun w => indicesOf w == indicesOf v
-    | [] => true
-  else true
+  match splitVals st env c with
+  | v :: rest => rest.all fun w => indicesOf w == indicesOf v
+  | [] => true
 
 abbrev Runner := String → List String → List (String × Idx) → J → J × List Inst
 
